@@ -840,6 +840,27 @@ def soupsieve_methods_table(ctx, rule):
           f'SoupSieve.select_one(tag) must be the first element of select(tag, limit=1) (or None): got {res!r}, limits {[c[2] for c in log["calls"]]}')
 
 
+from ..tables import el_obj as _el_obj  # noqa: E402
+
+
+def _lang_tree(metas, html_lang=None, el_lang=None, body_lang=None):
+    doc = _el_obj('[document]', label='BeautifulSoup')
+    html = _el_obj('html', parent=doc, attrs=({'lang': html_lang} if html_lang is not None else {}))
+    doc.set('contents', [html]); doc.set('__iter__', [html]); doc.set('__len__', 1)
+    head = _el_obj('head', parent=html)
+    ms = [_el_obj('meta', attrs=dict(a), parent=head) for a in metas]
+    head.set('contents', ms)
+    head.set('__iter__', ms)
+    head.set('__len__', len(ms))
+    body = _el_obj('body', parent=html, attrs=({'lang': body_lang} if body_lang is not None else {}))
+    el = _el_obj('p', parent=body, attrs=({'lang': el_lang} if el_lang is not None else {}))
+    body.set('contents', [el]); body.set('__iter__', [el]); body.set('__len__', 1)
+    el.set('contents', []); el.set('__iter__', []); el.set('__len__', 0)
+    html.set('contents', [head, body]); html.set('__iter__', [head, body]); html.set('__len__', 2)
+    return html, el
+
+
+
 # ---- :lang(): language of an element from lang attributes and the content-language pragma -----------------------------------
 def lang_table(ctx, rule):
     """Interpret match_lang on small abstract HTML trees; the language filter is replaced by a recorder, so the table shows
@@ -848,21 +869,7 @@ def lang_table(ctx, rule):
     fnq = 'css_match.CSSMatch.match_lang'
     mod, fn = ctx.src.func(fnq)
 
-    def tree(metas, html_lang=None, el_lang=None, body_lang=None):
-        doc = el_obj('[document]', label='BeautifulSoup')
-        html = el_obj('html', parent=doc, attrs=({'lang': html_lang} if html_lang is not None else {}))
-        doc.set('contents', [html]); doc.set('__iter__', [html]); doc.set('__len__', 1)
-        head = el_obj('head', parent=html)
-        ms = [el_obj('meta', attrs=dict(a), parent=head) for a in metas]
-        head.set('contents', ms)
-        head.set('__iter__', ms)
-        head.set('__len__', len(ms))
-        body = el_obj('body', parent=html, attrs=({'lang': body_lang} if body_lang is not None else {}))
-        el = el_obj('p', parent=body, attrs=({'lang': el_lang} if el_lang is not None else {}))
-        body.set('contents', [el]); body.set('__iter__', [el]); body.set('__len__', 1)
-        el.set('contents', []); el.set('__iter__', []); el.set('__len__', 0)
-        html.set('contents', [head, body]); html.set('__iter__', [head, body]); html.set('__len__', 2)
-        return html, el
+    tree = _lang_tree
 
     def language_of(metas, **kw):
         html, el = tree(metas, **kw)
@@ -1130,3 +1137,286 @@ def dir_table(ctx, rule):
                        f'match_dir: <{kind.replace(":", " type=")}{" dir=" + dirv if dirv else ""}> with text {list(text)} (L/R/A = strong '
                        f'left/right/Arabic letter, N/1 = neutral/number) under a parent with dir={pdir}: :dir(ltr) is {got["ltr"]}, :dir(rtl) is '
                        f'{got["rtl"]}; the HTML Standard gives directionality {exp} (exactly one of the two must hold)')
+
+
+# ---- scanner loops: the position at which a match is attempted strictly increases ---------------------------------------------
+def scanner_progress(ctx, rule, fnq, run, n_tokens_kinds, what):
+    """`run(matcher_factory)` interprets the scanner on a 3-character input with every regex replaced by an abstract matcher.
+    For "token kind k matches everywhere with the minimal advance (end = pos + 1)" and for "nothing matches", the positions
+    at which matches are attempted must strictly increase and the scanner must stop.  Each iteration of a scanner depends on
+    its position only through the outcome of the match attempts, so these cases cover every input (given non-nullable tokens,
+    which the regex rules establish)."""
+    mod, fn = ctx.src.func(fnq)
+    bad = None
+    for kind in list(range(n_tokens_kinds)) + [None]:
+        attempts = []
+        outcome = run(kind, attempts)
+        per_pos = {}
+        for k_, pos in attempts:
+            per_pos.setdefault(pos, 0)
+            per_pos[pos] += 1
+        positions = [p for _, p in attempts]
+        # a position may be tried once per token kind, but once a later position has been tried no earlier one may recur
+        mono = all(positions[i] <= positions[i + 1] for i in range(len(positions) - 1))
+        bounded = all(v <= max(1, n_tokens_kinds) + 2 for v in per_pos.values())
+        ok = mono and bounded and not (isinstance(outcome, str) and outcome.startswith('no progress'))
+        rule.instance({'scanner': fnq, 'case': 'no token matches' if kind is None else f'token #{kind} matches with end = pos + 1',
+                       'positions_tried': sorted(per_pos), 'outcome': outcome if isinstance(outcome, str) else 'returns'},
+                      key=f'progress|{fnq}|{kind}')
+        if not ok and bad is None:
+            bad = (kind, positions[:12], outcome)
+    rule.obligation(bad is None)
+    if bad is not None:
+        kind, positions, outcome = bad
+        rule.violation(f'{fnq} loop-progress', mod.where(fn),
+                       f'{what}: with {"no token matching" if kind is None else f"token #{kind} matching one character at every position"} the '
+                       f'scanner attempts matches at positions {positions}... ({outcome}): the position does not strictly increase, so the '
+                       f'loop never terminates on input that takes this path')
+
+
+def tokenizer_progress(ctx, rule):
+    fnq = 'css_parser.CSSParser.selector_iter'
+
+    def run(kind, attempts, n=3):
+        def mk(i):
+            def match(selector, index, flags=0, _i=i):
+                attempts.append((_i, index))
+                if len(attempts) > 60:
+                    raise Raised('no progress')
+                if kind == _i and index < len(selector):
+                    return match_obj({0: selector[index]}, name=f'tok{_i}', start=index, end=index + 1)
+                return None
+            return Obj(_name=f'pattern{i}', match=match, get_name=lambda m=None, _i=i: f'tok{_i}', name=f'tok{i}')
+        me = parser_obj(pattern='XXX')
+        me.set('css_tokens', tuple(mk(i) for i in range(n)))
+        stubs = {'re.Pattern.search': lambda rx_obj, s, *a: None, 're.Pattern.match': lambda rx_obj, s, *a: None}
+        try:
+            call_function(ctx, fnq, ['XXX'], {}, stubs, me)
+            return 'returns'
+        except Raised as e:
+            return 'no progress' if e.exc_name == 'no progress' else f'raises {e.exc_name}'
+        except Unsupported as e:
+            raise AnalysisError(f'selector_iter: outside the evaluable fragment: {e}')
+    scanner_progress(ctx, rule, fnq, run, 3, 'the selector tokenizer')
+
+
+def pretty_progress(ctx, rule):
+    fnq = 'pretty.pretty'
+    dn = ctx.consts.folder.env_nodes['pretty'].get('TOKENS')
+    if not isinstance(dn, ast.Dict):
+        raise AnalysisError('pretty.TOKENS is not a dict literal')
+    pats = []
+    for v_ in dn.values:
+        r_ = ctx.consts.by_name(f'pretty.{ast.unparse(v_)}')
+        if r_ is None:
+            raise AnalysisError(f'pretty.TOKENS value {ast.unparse(v_)} is not an inventoried regex')
+        pats.append(r_.pattern)
+
+    def run(kind, attempts):
+        def matcher(rx_obj, text, pos=0, *a_):
+            i = pats.index(rx_obj.get('pattern')) if rx_obj.get('pattern') in pats else -1
+            attempts.append((i, pos))
+            if len(attempts) > 40 * max(1, len(pats)):
+                raise Raised('no progress')
+            if kind is not None and i == kind and pos < len(text):
+                return match_obj({0: text[pos], 1: text[pos]}, name=f'tok{i}', start=pos, end=pos + 1)
+            return None
+        try:
+            call_function(ctx, fnq, [Obj(_name='obj')], {}, {'str': lambda o: 'XXX', 're.Pattern.match': matcher})
+            return 'returns'
+        except Raised as e:
+            return 'no progress' if e.exc_name == 'no progress' else f'raises {e.exc_name}'
+        except Unsupported as e:
+            raise AnalysisError(f'pretty(): outside the evaluable fragment: {e}')
+    scanner_progress(ctx, rule, fnq, run, len(pats), 'the debug pretty-printer')
+
+
+
+def lang_memo_table(ctx, rule):
+    """Transparency of the per-matcher <meta> language memo: with ONE matcher, the language found for a sequence of
+    elements (same document, then another document reached through the same matcher) equals what a fresh matcher finds."""
+    from ..tables import matcher_obj
+    fnq = 'css_match.CSSMatch.match_lang'
+    mod, fn = ctx.src.func(fnq)
+    P = ('http-equiv', 'content-language')
+
+    def doc(lang):
+        metas = [[P, ('content', lang)]] if lang else []
+        html, el = _lang_tree(metas)
+        body = el.get('parent')
+        el2 = _el_obj('p', parent=body)
+        el2.set('contents', []); el2.set('__iter__', []); el2.set('__len__', 0)
+        kids = [el, el2]
+        body.set('contents', kids); body.set('__iter__', kids); body.set('__len__', 2)
+        return html, el, el2
+
+    def found(me, el):
+        seen = []
+        stubs = {'css_match.CSSMatch.extended_language_filter': lambda pattern, f: (seen.append(f), True)[1],
+                 'css_match.CSSMatch.supports_namespaces': lambda: False}
+        langs = (Obj(_name='SelectorLang', languages=('xx',), __iter__=['xx'], __len__=1),)
+        try:
+            call_function(ctx, fnq, [el, langs], {}, stubs, me)
+        except Raised as e:
+            return f'raises {e.exc_name}'
+        except Unsupported as e:
+            raise AnalysisError(f'match_lang: outside the evaluable fragment: {e}')
+        return seen[0] if seen else None
+    bad = None
+    for lang_a, lang_b in (('en', 'fr'), ('en', None), (None, 'fr'), (None, None), ('en', 'en')):
+        a = doc(lang_a)
+        b = doc(lang_b)
+        for order in ((a[1], a[2], b[1], b[2], a[1]), (b[1], a[1], b[2], a[2]), (a[1], b[1], a[2])):
+            me = matcher_obj(is_xml=False, is_html=True, root=a[0], cached_meta_lang=[], has_html_namespace=False)
+            got, exp = [], []
+            for el in order:
+                got.append(found(me, el))
+                fresh = matcher_obj(is_xml=False, is_html=True, root=a[0], cached_meta_lang=[], has_html_namespace=False)
+                exp.append(found(fresh, el))
+            names = ['A' if e in a else 'B' for e in order]
+            rule.instance({'documents': {'A': lang_a, 'B': lang_b}, 'elements_visited': names, 'languages_found': got,
+                           'with_fresh_matchers': exp}, key=f'memo|{lang_a}|{lang_b}|{"".join(names)}', sample_cap=3)
+            if got != exp and bad is None:
+                bad = (lang_a, lang_b, names, got, exp)
+    rule.obligation(bad is None)
+    if bad is not None:
+        lang_a, lang_b, names, got, exp = bad
+        rule.violation('css_match.CSSMatch.match_lang memo', mod.where(fn),
+                       f'match_lang with one matcher over elements of documents {names} (content-language pragma of A: {lang_a!r}, of B: '
+                       f'{lang_b!r}; B is a separate tree such as the document inside an iframe): languages found {got}, a fresh matcher per '
+                       f'element finds {exp}. The <meta> memo must be transparent: keyed by the top of the walk, a miss stored as a miss, '
+                       f'a hit returning what was computed')
+
+
+# ---- value classes of the IR: constructor, equality, hash and the pickle/copy reducer agree ------------------------------------------
+def immutable_table(ctx, rule, classes):
+    """For every value class: build an object through its real constructor (object.__setattr__ modelled, hash()/type() replaced
+    by injective stand-ins), then (1) every slot holds the same-named constructor argument, (2) the pickle/copy reducer
+    rebuilds an equal object with an equal hash, (3) changing any single field makes the objects unequal."""
+    stubs = {'hash': lambda v: ('hash', v), 'type': lambda v: type(v).__name__}
+    opts = {'real_immutable': True}
+
+    def construct(cq, args):
+        if isinstance(cq, str):
+            cq = PkgClass(cq)
+        if not isinstance(cq, PkgClass):
+            raise Raised(f'TypeError (the reducer names {cq!r} as constructor, not a class)')
+        it = Interp(ctx, cq.qual.split('.')[0], None, {}, stubs, shared={'steps': 0, 'real_immutable': True})
+        return it.apply(cq, list(args), {})
+
+    def call(q, args, me):
+        return call_function(ctx, q, args, {}, stubs, me, options=opts)
+    for cq in classes:
+        mn, _, cn = cq.partition('.')
+        mod = ctx.src.mods[mn]
+        initq = ctx.src.find_method(cq, '__init__')
+        _, init = ctx.src.func(initq)
+        params = [a.arg for a in init.args.args[1:]]
+        if init.args.kwarg is not None and not params:
+            continue            # the base class itself
+        problems = []
+        try:
+            markers = [(f'<{p}>',) for p in params]
+            obj = construct(cq, markers)
+            fields = dict(object.__getattribute__(obj, '_fields'))
+            slots = Interp(ctx, mn, cn, {}, stubs).getattr(obj, '__slots__')
+            if not slots or slots[-1] != '_hash':
+                problems.append(f'__slots__ {slots} does not end with _hash')
+            want_fields = list(slots[:-1])
+            if sorted(k for k in fields if k != '_hash') != sorted(want_fields):
+                problems.append(f'the constructor sets fields {sorted(k for k in fields if k != "_hash")}, __slots__[:-1] is {want_fields}')
+            for p_, m_ in zip(params, markers):
+                if p_ in fields and fields[p_] != m_:
+                    problems.append(f'field {p_} holds {fields[p_]!r} when the constructor argument {p_} is {m_!r}')
+            if not problems:
+                ctor, args = call('css_types._pickle', [obj], None)
+                clone = construct(ctor, list(args))
+                eq = call('css_types.Immutable.__eq__', [clone], obj)
+                ne = call('css_types.Immutable.__ne__', [clone], obj)
+                h1, h2 = call('css_types.Immutable.__hash__', [], obj), call('css_types.Immutable.__hash__', [], clone)
+                cf = dict(object.__getattribute__(clone, '_fields'))
+                if eq is not True or ne is not False or h1 != h2:
+                    diff = [k for k in fields if cf.get(k) != fields[k]]
+                    problems.append(f'the pickle/copy reducer rebuilds an object that is {"un" if eq is not True else ""}equal '
+                                    f'(__eq__ {eq}, __ne__ {ne}, hashes {"equal" if h1 == h2 else "differ"}); fields that differ: {diff}')
+                for i, p_ in enumerate(params):
+                    other = list(markers)
+                    other[i] = ('<changed>',)
+                    o2 = construct(cq, other)
+                    eq = call('css_types.Immutable.__eq__', [o2], obj)
+                    ne = call('css_types.Immutable.__ne__', [o2], obj)
+                    h2 = call('css_types.Immutable.__hash__', [], o2)
+                    if eq is not False or ne is not True or h2 == h1:
+                        problems.append(f'objects that differ only in {p_} compare __eq__ {eq} / __ne__ {ne}, hashes '
+                                        f'{"equal" if h2 == h1 else "differ"}')
+                stranger = Obj(_cls='css_types.ImmutableDict', _name='stranger')
+                if call('css_types.Immutable.__eq__', [stranger], obj) is not False or call('css_types.Immutable.__ne__', [stranger], obj) is not True:
+                    problems.append('an object of an unrelated class compares equal')
+        except Raised as e:
+            problems.append(f'construction / comparison raises {e.exc_name}')
+        except Unsupported as e:
+            raise AnalysisError(f'{cq}: outside the evaluable fragment: {e}')
+        rule.instance({'class': cq, 'constructor_parameters': params, 'problems': problems}, key='value|' + cq)
+        rule.obligation(not problems)
+        for p_ in problems:
+            rule.violation(f'{cq} {p_[:60]}', mod.where(mod.classes[cn]), f'{cq}: {p_}')
+
+
+# ---- the pattern text on its way from the API to the tokenizer ------------------------------------------------------------------
+def pattern_handover_table(ctx, rule):
+    """Interpret compile() -> _cached_css_compile() -> CSSParser.__init__ -> process_selectors with recording stand-ins: the
+    text the tokenizer iterates over is the caller's text, except that NUL becomes U+FFFD."""
+    texts = ['PAT', 'a\x00b', ' a\\ ', 'A\tb\n', '']
+    pmod = ctx.src.mod('css_parser')
+    bad = None
+    for text in texts:
+        exp = text.replace('\x00', '�')
+        trace = {}
+
+        def cached_stub(*a, **k):
+            trace['to_cache'] = a[0] if a else k.get('pattern')
+            return call_function(ctx, 'css_parser._cached_css_compile', list(a), dict(k), inner_stubs, None)
+
+        def parser_ctor(*a, **k):
+            sel = a[0] if a else k.get('selector')
+            trace['to_parser'] = sel
+            me = Obj(_cls='css_parser.CSSParser', _name='parser')
+            kw = dict(k)
+            kw.pop('selector', None)
+            call_function(ctx, 'css_parser.CSSParser.__init__', [sel] + list(a[1:]), kw, {}, me)
+            trace['stored'] = me.get('pattern') if me.has('pattern') else None
+
+            def process_selectors(*pa, **pk):
+                def selector_iter(p_):
+                    trace['tokenized'] = p_
+                    return []
+                st = {'css_parser.CSSParser.selector_iter': selector_iter,
+                      'css_parser.CSSParser.parse_selectors': lambda it_, *x, **y: Obj(_name='SelectorList')}
+                return call_function(ctx, 'css_parser.CSSParser.process_selectors', list(pa), dict(pk), st, me)
+            me.set('process_selectors', process_selectors)
+            return me
+        inner_stubs = {'css_parser.CSSParser': parser_ctor, 'css_match.SoupSieve': lambda *a, **k: Obj(_name='SoupSieve', pattern=a[0] if a else k.get('pattern'))}
+        stubs = {'cp._cached_css_compile': cached_stub, 'isinstance': lambda v, c: False}
+        try:
+            res = call_function(ctx, '__init__.compile', [text], {}, stubs, None)
+        except Raised as e:
+            trace['raises'] = e.exc_name
+            res = None
+        except Unsupported as e:
+            raise AnalysisError(f'compile() hand-over: outside the evaluable fragment: {e}')
+        final = res.get('pattern') if isinstance(res, Obj) and res.has('pattern') else None
+        ok = trace.get('to_cache') == text and trace.get('to_parser') == text and trace.get('stored') == exp \
+            and trace.get('tokenized') == exp and final == text and 'raises' not in trace
+        rule.instance({'pattern': text, 'to_cache': trace.get('to_cache'), 'to_parser': trace.get('to_parser'),
+                       'stored': trace.get('stored'), 'tokenized': trace.get('tokenized'), 'SoupSieve.pattern': final}, key=f'handover|{text!r}')
+        if not ok and bad is None:
+            bad = (text, dict(trace), final, exp)
+    rule.obligation(bad is None)
+    if bad is not None:
+        text, trace, final, exp = bad
+        rule.violation('css_parser pattern hand-over', 'soupsieve/__init__.py (compile) -> soupsieve/css_parser.py',
+                       f'the pattern {text!r} reaches the cache as {trace.get("to_cache")!r}, the parser as {trace.get("to_parser")!r}, is '
+                       f'stored as {trace.get("stored")!r}, tokenized as {trace.get("tokenized")!r} and kept on the compiled object as '
+                       f'{final!r}{" (raises " + trace["raises"] + ")" if "raises" in trace else ""}; expected the text itself everywhere '
+                       f'({exp!r} for the tokenizer: only NUL -> U+FFFD): escape() output such as a trailing escaped space must not be '
+                       f'altered before parsing')
